@@ -7,7 +7,7 @@ PROP = dict(
                        "C21_import_first_supplier", "C21_qualified_same_decl", "C21_clash_iff", "C21_clash_iff_own",
                        "C21_children_exact", "C21_child_visible_iff", "C21_filtered_child_invisible",
                        "C21_qualified_variant_same_decl", "C21_children_follow_decls", "C21_pattern_same_decl",
-                       "C21_arms_independent", "C21_clash_iff_members"],
+                       "C21_arms_independent", "C21_clash_iff_members", "C21_defining_expression_outside"],
     harness_bin="c21",
     mismatch_is_violation=True,
     rule="(quick) 700 / (thorough) 12000 seeded multi-file programs built from an abstract description: 1-4 files, names from a "
@@ -15,7 +15,8 @@ PROP = dict(
          "except list, as-prefix; also of a missing file, of the file itself, of one file twice, cyclic), every file's function "
          "body and the main file's top level filled with let / block / if / while / for / match-arm / lambda-parameter binders "
          "nested <= 3 deep and plain / prefix-qualified uses (9 in 10 picked among the names visible at that point); sibling "
-         "scopes are generated heavily: matches with 2-3 arms (each binding at most one name, 2 in 3 a name that is already "
+         "scopes are generated heavily, and half of the let / for / match binders that reuse a visible name mention that very name in "
+         "their own defining expression (let initialiser, for iterable, match scrutinee), which must reach the outer declaration: matches with 2-3 arms (each binding at most one name, 2 in 3 a name that is already "
          "visible outside) whose later arms use what an earlier arm bound, if/else whose else branch uses what the then branch "
          "bound, and after every closed block / loop / lambda / match a use of a name bound inside it (every arm and both "
          "branches are executed, through a helper lambda called once per arm); every file "
